@@ -397,3 +397,13 @@ package j5convert
 //@   |   lrules(result0.Options) != nil && typeis(lrules(result0.Options).Type, *list_j5pb.FieldConstraint_Float) && as(*list_j5pb.FieldConstraint_Float, lrules(result0.Options).Type).Float == floatSch(node).ListRules
 //@   ensures float.list64: result1 == nil && typeis(node.Schema, *schema_j5pb.Field_Float) && floatSch(node).ListRules != nil && floatSch(node).Format == schema_j5pb.FloatField_FORMAT_FLOAT64 ==>
 //@   |   lrules(result0.Options) != nil && typeis(lrules(result0.Options).Type, *list_j5pb.FieldConstraint_Double) && as(*list_j5pb.FieldConstraint_Double, lrules(result0.Options).Type).Double == floatSch(node).ListRules
+
+// ---- more of buildProperty (C12) ------------------------------------------------------------------------------------
+// The rules buildField attached to the item type become repeated.items of the array's constraint; a
+// primary key is required whether or not the source says so; required and optional together are rejected.
+//@ func buildProperty
+//@   assert at SetExtension#1 items: as(*descriptorpb.FieldOptions, arg0) == fieldDesc.Options && as(*validate.FieldConstraints, arg2) == rules && typeis(rules.Type, *validate.FieldConstraints_Repeated)
+//@   |   && as(*validate.FieldConstraints_Repeated, rules.Type).Repeated == repeated && repeated.Items == extof(validate.E_Field, fieldDesc.Options)
+//@   ensures pk.required: result1 == nil && extof(ext_j5pb.E_Key, result0.Options) != nil && extof(ext_j5pb.E_Key, result0.Options).PrimaryKey ==>
+//@   |   vrules(result0.Options) != nil && vrules(result0.Options).Required != nil && *vrules(result0.Options).Required
+//@   ensures conflict: node.Schema.ExplicitlyOptional && node.Schema.Required ==> result1 != nil
